@@ -161,10 +161,14 @@ func (s *Store) AddSourceSnapshot(ckpt *jobpb.SourceRunnerCheckpointCompleteRequ
 	return nil
 }
 
+// RegisterSourceSplitter sets the source splitter of the job run that is
+// starting. It replaces the splitter of a previous run and abandons that
+// run's unfinished snapshot, which can no longer be completed.
 func (s *Store) RegisterSourceSplitter(splitter connectors.SourceSplitter) {
 	s.stateMu.Lock()
 	defer s.stateMu.Unlock()
-	s.sourceSplitters = append(s.sourceSplitters, splitter)
+	s.sourceSplitters = []connectors.SourceSplitter{splitter}
+	s.state.pendingSnapshot = nil
 }
 
 func (s *Store) finishSnapshot(snap *jobSnapshot) {
